@@ -189,7 +189,7 @@ impl Monitor for C12 {
         vec![("aggregate", tier.pick(8400, 168_000)), ("ties", tier.pick(600, 12_000)), ("structures", tier.pick(30_000, 600_000))]
     }
     fn rule(&self) -> &'static str {
-        "case i -> objective (i mod 7), data-set size from {1,2,3,40,63,64,65,127,128,129,200,257} (i/7 mod 12; the parallel chunk is 64), soft-max output or not, output width 1 or >1, tolerance from {f32::MIN_POSITIVE, 1e-9, log-uniform [1e-12,1e-6], log-uniform [1e-6,0.5]}, pool of 1..16 threads; random network ending in a dense layer (dense/conv/deconv/pool before it). One data set in five is a slow walk (consecutive inputs a few 1e-6 apart), one in ten repeats earlier inputs exactly. Soft-max targets are one-hot, soft probabilities, log-probabilities (all entries negative) or arbitrary reals with a unique maximum. Targets are generated from the network's own predictions so that every component is clearly inside (an exact hit or |t-p| <= tol/2) or clearly outside (>= 2 tol + 0.01) the tolerance and arg-max ties do not occur. Oracle: harness-side aggregation over the library's own predict() and objective loss(): mean loss (f64, bound n*eps), accuracy by the stated rule; predict_batch(xs)[i] must be bit-equal to predict(xs[i]) in input order (also for 0 inputs), predict(x) bit-equal to the last activation of forward(x). Every second case repeats validate() and predict_batch() on the same network with a shorter prefix of the data. ties: soft-max outputs with exactly equal maxima (uniform distribution): the accuracy must equal the frequency of some single class among the targets, whatever the tie-breaking convention. structures: chains of 3..8 layers (dense / spatial / mixed) with 0..2 skip connections and 1..3 loop connections in any arrangement the library accepts (disjoint, nested, overlapping ranges, with and without input skips), all 5 x 5 accumulation pairs: predict bit-equal to the final activation of forward, predict_batch bit-equal to predict of each input (configurations on which both forward and predict panic are counted, not judged). Distinct = distinct (network, objective, size, tolerance) descriptors."
+        "case i -> objective (i mod 7), data-set size from {1,2,3,40,63,64,65,127,128,129,200,257} (i/7 mod 12; the parallel chunk is 64), soft-max output or not, output width 1 or >1, tolerance from {f32::MIN_POSITIVE, 1e-9, log-uniform [1e-12,1e-6], log-uniform [1e-6,0.5]}, pool of 1..16 threads; random network ending in a dense layer (dense/conv/deconv/pool before it). One data set in five is a slow walk (consecutive inputs a few 1e-6 apart), one in ten repeats earlier inputs exactly. One squared-error case in six contains a sample whose loss overflows to +inf (target 3e20): the reported loss must then not be finite and the accuracy still averages over all samples. Soft-max targets are one-hot, soft probabilities, log-probabilities (all entries negative) or arbitrary reals with a unique maximum. Targets are generated from the network's own predictions so that every component is clearly inside (an exact hit or |t-p| <= tol/2) or clearly outside (>= 2 tol + 0.01) the tolerance and arg-max ties do not occur. Oracle: harness-side aggregation over the library's own predict() and objective loss(): mean loss (f64, bound n*eps), accuracy by the stated rule; predict_batch(xs)[i] must be bit-equal to predict(xs[i]) in input order (also for 0 inputs), predict(x) bit-equal to the last activation of forward(x). Every second case repeats validate() and predict_batch() on the same network with a shorter prefix of the data. ties: soft-max outputs with exactly equal maxima (uniform distribution): the accuracy must equal the frequency of some single class among the targets, whatever the tie-breaking convention. structures: chains of 3..8 layers (dense / spatial / mixed) with 0..2 skip connections and 1..3 loop connections in any arrangement the library accepts (disjoint, nested, overlapping ranges, with and without input skips), all 5 x 5 accumulation pairs: predict bit-equal to the final activation of forward, predict_batch bit-equal to predict of each input (configurations on which both forward and predict panic are counted, not judged). Distinct = distinct (network, objective, size, tolerance) descriptors."
     }
     fn assumptions(&self) -> Vec<&'static str> {
         vec!["boundary semantics (|t-p| == tol, arg-max ties, NaN losses) are unspecified and not generated", "per-sample predict() and loss() are trusted here (they are the subject of C02/C06)"]
@@ -346,13 +346,29 @@ impl Monitor for C12 {
             out.count("cases_skipped_because_a_sample_sits_on_a_boundary", 1);
             return out;
         }
+        // one case in six (squared-error objectives): one sample carries a target of 3e20, its
+        // loss overflows to +inf. The mean over the samples is then not finite, and the accuracy
+        // still averages over ALL samples (that sample scores 0)
+        let mut ts = ts;
+        let overflow_at: Option<usize> = if !softmax && matches!(obj, Obj::MSE | Obj::RMSE) && n >= 2 && rng.range(0, 5) == 0 { Some(rng.range(0, n - 1)) } else { None };
+        if let Some(j) = overflow_at {
+            for v in ts[j].iter_mut() {
+                *v = 3.0e20;
+            }
+            expect_acc[j] = 0.0;
+        }
         let t_t: Vec<Tensor> = ts.iter().map(|t| Tensor::single(t.clone())).collect();
         // per-sample losses through the library's own loss()
         let objf = objective::Function::create(lib_obj(obj), None);
         let losses: Vec<f32> = preds.iter().zip(t_t.iter()).map(|(p, t)| objf.loss(&Tensor::single(p.clone()), t).0).collect();
-        if losses.iter().any(|l| !l.is_finite()) {
+        let nonfinite: Vec<usize> = (0..n).filter(|i| !losses[*i].is_finite()).collect();
+        if !nonfinite.is_empty() && overflow_at.map(|j| nonfinite != vec![j]).unwrap_or(true) {
             out.nontrivial = false;
             out.count("cases_skipped_because_a_sample_loss_is_not_finite", 1);
+            return out;
+        }
+        if overflow_at.is_some() && nonfinite.is_empty() {
+            out.nontrivial = false;
             return out;
         }
         let mean_loss: f64 = losses.iter().map(|l| *l as f64).sum::<f64>() / n as f64;
@@ -375,7 +391,12 @@ impl Monitor for C12 {
             Ok((loss, acc)) => {
                 out.count("validate_calls", 1);
                 let ltol = (n as f64 + 4.0) * 2.0 * EPS32 * mean_abs + 1e-30;
-                if !loss.is_finite() || (loss as f64 - mean_loss).abs() > ltol {
+                if overflow_at.is_some() {
+                    out.count("validate_calls_with_one_overflowing_sample", 1);
+                    if loss.is_finite() {
+                        out.viol("aggregate:validate-loss:overflowing-sample", format!("validate over {} samples ({}) of which one has loss +inf reports the finite loss {:e}: not the mean over the samples", n, obj.name(), loss), detail());
+                    }
+                } else if !loss.is_finite() || (loss as f64 - mean_loss).abs() > ltol {
                     out.viol("aggregate:validate-loss", format!("validate over {} samples ({}): loss {:e}, mean of the per-sample losses {:e} (bound {:e})", n, obj.name(), loss, mean_loss, ltol), detail());
                 }
                 let atol = (n as f64 + 4.0) * 2.0 * EPS32 + 1e-9;
@@ -407,7 +428,7 @@ impl Monitor for C12 {
         }
         // a second round on the same network with a shorter prefix of the data (nothing sized or
         // remembered from the first calls may leak into the second)
-        if n >= 2 && idx % 2 == 0 {
+        if n >= 2 && idx % 2 == 0 && overflow_at.is_none() {
             let m = if idx % 4 == 0 { rng.range(1, n - 1) } else { n - 1 };
             let (xm, tm): (Vec<&Tensor>, Vec<&Tensor>) = (xr[..m].to_vec(), tr[..m].to_vec());
             let ((v2, pb2), _) = in_cached_pool(threads, || (guard(|| net.validate(&xm, &tm, tol)), guard(|| net.predict_batch(&xm))));
